@@ -119,6 +119,11 @@ def gen_cases(tier):
             add("base58chk-encode", "leading-zeros", [hx(b)], ("str", s58))
             if R.classify(s58)[0] == "string":
                 add("base58chk-decode", "leading-zeros", [s58], ("data", b))
+    # ---- an inline call whose argument is a bracketed sub-script, itself inside a bracketed sub-script: [OP_DUP sha256([OP_2 OP_3])] - the
+    #      tokenizer has to keep the call together (brackets, blanks and all) at every nesting level
+    for body_text, body in (("[OP_2 OP_3]", bytes.fromhex("5253")), ("[OP_1 [OP_2] OP_DROP]", bytes.fromhex("51015275")), ("[0x1234 OP_SIZE]", bytes.fromhex("02123482"))):
+        for h, f in (("sha256", R.sha256), ("ripemd160", R.ripemd160), ("hash160", R.hash160), ("hash256", R.hash256), ("reverse", lambda b: b[::-1])):
+            add(h, "nested-bracket-argument", [body_text], ("data", f(body)), ("nest",))
     # ---- strings and integers as arguments of the generic transforms
     for s in ("abc", "hello", "Zz", "TapLeaf", "x"):
         sb = s.encode()
@@ -448,6 +453,8 @@ def run_op(tf, args, embedded):
 def form_applicable(tf, args, form):
     if form == "cmd":
         return len("tf %s %s" % (tf, " ".join(args))) < REPL_LINE_MAX
+    if form == "nest":
+        return True
     if form in ("inl", "inl2"):
         return TABLE[tf] is not None and sum(len(a) + 1 for a in args) + 40 < ARGV_MAX
     if form == "op":
@@ -469,6 +476,16 @@ def evaluate(unit):
     if form == "cmd":
         st, sg, lines, errs, raw = run_cmd(tf, args)
         binary, shown = "btcdeb_tty", "tf %s %s" % (tf, sh(args))
+    elif form == "nest":
+        expr = "[OP_DUP %s(%s) OP_DROP]" % (TABLE[tf], args[0])
+        rc, out, err = _run([os.path.join(BDIR, "btcc"), expr])
+        binary, shown = "btcc", "btcc '%s'" % expr
+        want = R.push_minimal(b"\x76" + R.push_minimal(expect[1]) + b"\x75").hex()
+        got = out.strip().split("\n")[-1] if out and out.strip() else ""
+        base = (tf, form, ac + "|" + expect[0])
+        if rc != 0 or got != want:
+            return base + ("wrong", "wrong-result:%s:nest:%s" % (tf, ac), "%s gives %s (exit %s), expected %s" % (shown, got[:120], rc, want[:120]), rp, None, None)
+        return base + ("ok", None, None, None, "%s -> %s" % (shown, got[:70]), None)
     elif form in ("inl", "inl2"):
         st, sg, lines, errs, raw = run_inl(tf, args, form == "inl2")
         binary, shown = "btcc", "btcc '%s(%s)'" % (ADVERTISED[tf] if form == "inl2" else TABLE[tf], sh(args) if len(args) == 1 else "[" + sh(args) + "]")
@@ -504,6 +521,11 @@ def evaluate(unit):
         return base + ("limit-answered", None, None, None, "%s -> %s" % (shown, (val or "")[:60]), keep)
     if kind == "reject":
         if rejected:
+            # a refusal yields no value: what the command form prints after the diagnostic is empty (bytes left over from an earlier parsing
+            # attempt, or a half-finished result, are not an answer)
+            # (bech32-decode leaves its argument as it is and prints it back: that is the argument, not a result)
+            if form == "cmd" and tf in ("base58chk-decode", "bech32-decode", "addr-to-scriptpubkey") and val not in (None, "", '""') and val.strip('"') != (args[0] if args else ""):
+                return base + ("rejected-with-value", "refusal-prints-a-value:%s:%s" % (tf, ac), "%s was refused (%s) but still printed the value %r" % (shown, errs[0][:80], (val or "")[:100]), rp, None, keep)
             return base + ("rejected", None, None, None, "%s -> rejected: %s" % (shown, errs[0][:80]), keep)
         return base + ("accepted-invalid", "accepted-invalid:%s:%s:%s" % (tf, form, ac), "%s was accepted and printed %r; the oracle rejects this input" % (shown, (val or "")[:100]), rp, None, keep)
     # a value is expected
